@@ -41,6 +41,11 @@ func (c *ShipConnection) handleShipMessage(timeout bool, message []byte) {
 		}
 	}
 
+	// a closed connection is final, it does not process any further handshake input
+	if c.isConnectionClosed() {
+		return
+	}
+
 	c.handleState(timeout, message)
 }
 
@@ -238,7 +243,9 @@ func (c *ShipConnection) setHandshakeTimer(timerType timeoutTimerType, duration 
 			return
 		case <-time.After(duration):
 			c.setHandshakeTimerRunning(false)
-			c.handleState(true, nil)
+			if !c.isConnectionClosed() {
+				c.handleState(true, nil)
+			}
 			return
 		}
 	}()
